@@ -664,6 +664,7 @@ func runC19(c *Ctx, r *Report) {
 	c17r10(c, r) // --walker / --walker-skip values are assigned or rejected, never silently ignored
 	c13r8(c, r)  // the parallel walker pushes concurrently: every path is listed exactly once only if the slot is filled under the list lock
 	c19r5(c, r)
+	c19r6(c, r)
 }
 
 // ------------------------------------------------------------------------------------------ C20
